@@ -686,6 +686,63 @@ def run_delegate_shapes(pid, tier, t0):
     return finish(pid, tier, "exploration", cov, ["the default body is the generated trait's own; the silent final verification is the witness that required calls were counted on the same mock state"], t0, divs)
 
 
+def run_bundled(pid, tier, t0):
+    import gen, subprocess
+    inst = {"module": "MC_Mirrors", "spec": "Spec", "constants": {"EmitOn": True}, "invariants": ["BasisIsRequired", "Emit"]}
+    r, table = gen.tlc_cases(inst, "mirrors_" + pid.lower())
+    main_rs = open(os.path.join(gen.GEN, "c20_main.rs")).read()
+    name = "gen_c20"
+    gen.write_crate(name, main_rs, features=("mock-core", "mock-std", "mock-embedded-hal-1"))
+    p = gen.cargo(name, ["build", "--offline"], timeout=3000)
+    if p.returncode != 0:
+        log(p.stderr[-3000:])
+        raise ToolError("the C20 program does not build against the tree")
+    env = dict(os.environ); env["C20_RUNS"] = "150" if tier == "quick" else "20000"; env["VERIF_SEED"] = str(vf.seed())
+    exe = os.path.join(vf.WORK, "target", "debug", name)
+    q = subprocess.run([exe], capture_output=True, text=True, env=env, timeout=3000)
+    if q.returncode != 0:
+        raise ToolError("the C20 program failed: %s" % q.stderr[-1000:])
+    obs = [json.loads(l) for l in q.stdout.splitlines() if l.startswith("{")]
+    divs = []
+    diff_by_method = {}
+    wired = set()
+    for o in obs:
+        if o["kind"] == "diff":
+            meth = o["case"].split("#")[0]
+            diff_by_method[meth] = diff_by_method.get(meth, 0) + 1
+            if not o["equal"]:
+                divs.append({"what": "a Unimock replaying a script through upstream %s differs from a plain struct implementing the trait with that script" % meth,
+                             "step": 0, "expected": {"plain_struct": o["plain"]}, "observed": {"unimock": o["mock"]}, "beh": {"kind": "generated-case", "case": o["case"]}, "in_scope": True})
+        else:
+            wired.add(o["case"])
+            if not o["ok"]:
+                divs.append({"what": "mirrored method is not served by its own mock entry point: %s" % o["case"], "step": 0, "expected": "answered by the configured clause",
+                             "observed": o["detail"], "beh": {"kind": "generated-case", "case": o["case"]}, "in_scope": True})
+    # every method of the model's table must have been exercised: required -> wiring case, provided -> a differential run (or its default)
+    covered_prov = {"Hasher::write_ints": {"write_u8", "write_u16", "write_u32", "write_u64", "write_u128", "write_usize", "write_i8", "write_i16", "write_i32", "write_i64", "write_i128", "write_isize"},
+                    "Seek::rewind+stream_position": {"rewind", "stream_position"}, "DelayNs::delay_us+delay_ms": {"delay_us", "delay_ms"}}
+    missing = []
+    for row in table:
+        t, m, kind = row["trait"], row["method"], row["kind"]
+        if kind == "req":
+            if "wire:%s::%s" % (t, m) not in wired:
+                missing.append("%s::%s (required, no wiring case)" % (t, m))
+        else:
+            hit = ("%s::%s" % (t, m)) in diff_by_method or any(k.startswith(t + "::") and m in v for k, v in covered_prov.items() if k in diff_by_method) \
+                  or ("wire:%s::%s(default)" % (t, m)) in wired
+            if not hit:
+                missing.append("%s::%s (provided, no differential run)" % (t, m))
+    if missing:
+        raise ToolError("methods of the model's mirror table not exercised by the program: %s" % missing)
+    n = len(obs)
+    cov = {"evaluations": n, "distinct_nontrivial": n, "programs": 1, "states": r["distinct"], "transitions": r["generated"], "traces_validated_against_impl": n,
+           "exhaustive": False, "differential_runs_per_method": diff_by_method, "wiring_cases": sorted(wired),
+           "samples": [o for o in obs if o["kind"] == "diff"][:2],
+           "rule": "tla/Shapes.tla Mirrors lists every method of the mirrored core/std traits (and embedded-hal DelayNs) as required or provided with the required methods its upstream body rests on (BasisIsRequired checked by TLC); the driver requires one wiring case per required method and differential runs per provided method: seeded random scripts (chunk sizes, short reads/writes, zero, Interrupted, errors, payloads, line/delimiter data) are replayed by a Unimock and by a plain struct through write_all, write_vectored, read_exact, read_to_end, read_to_string, read_vectored, read_line, read_until, Hasher::write_*, Seek::rewind/stream_position, DelayNs::delay_us/ms and format! via Display; results, buffers and the sequence of required-method calls must be equal"}
+    return finish(pid, tier, "exploration", cov, ["the plain struct is the statement's own oracle; upstream provided bodies are an environment, not modelled",
+                  "tokio / futures-io mirrors have no provided methods that rest on mocked required methods besides poll_*_vectored; they are not driven here"], t0, divs)
+
+
 COMMON_ASSUME = [
     "argument domain is a small finite set; matchers are total and side-effect free",
     "expectations are produced by TLC from tla/Mock.tla; the harness only compares observables (return ids, panic classes, verification lines, drop counters)",
@@ -746,6 +803,8 @@ def run_property(pid, tier, t0):
         return run_c14(pid, tier, t0)
     if pid == "C06":
         return run_matching(pid, tier, t0, "C06")
+    if pid == "C20":
+        return run_bundled(pid, tier, t0)
     if pid == "C15":
         return composite(pid, tier, t0, [("default-body frames on the universe (Mock.tla, replay)", mock),
                                          ("receiver kinds (Shapes.tla DelegateExpected, generated traits)", lambda: run_delegate_shapes(pid, tier, t0))])
